@@ -89,6 +89,7 @@ _pixman_implementation_lookup_composite (pixman_implementation_t  *toplevel,
 
     /* Check cache for fast paths */
     cache = PIXMAN_GET_THREAD_LOCAL (fast_path_cache);
+    VERIF_POINT (PIXMAN_VERIF_SITE_CACHE_SCAN, cache, PIXMAN_VERIF_READ, NULL);
 
     for (i = 0; i < N_CACHED_FAST_PATHS; ++i)
     {
@@ -162,6 +163,7 @@ _pixman_implementation_lookup_composite (pixman_implementation_t  *toplevel,
     return;
 
 update_cache:
+    VERIF_POINT (PIXMAN_VERIF_SITE_CACHE_UPDATE, cache, i ? PIXMAN_VERIF_WRITE : PIXMAN_VERIF_READ, *out_func);
     if (i)
     {
 	while (i--)
@@ -175,6 +177,7 @@ update_cache:
 	cache->cache[0].fast_path.mask_flags = mask_flags;
 	cache->cache[0].fast_path.dest_format = dest_format;
 	cache->cache[0].fast_path.dest_flags = dest_flags;
+	VERIF_POINT (PIXMAN_VERIF_SITE_CACHE_STORE, cache, PIXMAN_VERIF_WRITE, *out_imp);
 	cache->cache[0].fast_path.func = *out_func;
     }
 }
